@@ -108,7 +108,7 @@ def build_perfile(d, names, wav, aps, val, unc, stored=None, fnames=None, writer
     write_parameters(d, names, pad=pad, values=par_values)
 
 
-def cube_object(names, wav, aps, val, unc, order, with_unc=True, flux_unit='mJy', distance_kpc=1.0, ap_unit='au'):
+def cube_object(names, wav, aps, val, unc, order, with_unc=True, flux_unit='mJy', distance_kpc=1.0, ap_unit='au', unc_twin=False):
     from astropy import units as u
     from sedfitter.sed import SEDCube
     c = SEDCube()
@@ -124,13 +124,15 @@ def cube_object(names, wav, aps, val, unc, order, with_unc=True, flux_unit='mJy'
     c.val = np.array([[[val(m, a, w) for w in idx] for a in range(na)] for m in range(len(names))], dtype=float) * unit
     if with_unc:
         c.unc = np.array([[[unc(m, a, w) for w in idx] for a in range(na)] for m in range(len(names))], dtype=float) * unit
+        if unc_twin and flux_unit in ('mJy', 'Jy'):
+            c.unc = c.unc.to(u.Jy if flux_unit == 'mJy' else u.mJy)        # the uncertainties may be held in another unit than the values
     return c
 
 
 def build_cube(d, names, wav, aps, val, unc, order='desc', aperture_dependent=None, logd_step=0.02, pad=False, par_values=None,
-               table_names=None, flux_unit='mJy', ap_unit='au'):
+               table_names=None, flux_unit='mJy', ap_unit='au', unc_twin=False):
     """cube package: models.conf (version 2), flux.fits, parameters.fits"""
     apdep = (aps is not None) if aperture_dependent is None else aperture_dependent
     fw.write_conf(d, aperture_dependent=apdep, logd_step=logd_step, version=2)
-    cube_object(names, wav, aps, val, unc, order, flux_unit=flux_unit, ap_unit=ap_unit).write(os.path.join(d, 'flux.fits'))
+    cube_object(names, wav, aps, val, unc, order, flux_unit=flux_unit, ap_unit=ap_unit, unc_twin=unc_twin).write(os.path.join(d, 'flux.fits'))
     write_parameters(d, table_names or names, pad=pad, values=par_values)
